@@ -20,8 +20,12 @@ import vlib
 PROPERTIES = ["C17"]
 SPEC_DIR = os.path.join(vlib.SPEC, "cert")
 
-ALL_CLASSES = ["z0", "s1", "s255", "s256", "s2e64", "s2e159"]
-DEC = {"z0": "0", "s1": "1", "s255": "255", "s256": "256", "s2e64": "2^64", "s2e159": "2^159"}
+MID_CLASSES = ["s255", "s256", "s2e64", "s2e159"]
+# longer than the 20 octets RFC 5280 allows; Go's x509 creates and parses them, so they can be submitted
+BIG_CLASSES = ["s2e160", "s2e160p1", "s2e168", "s2e255", "s2e319"]
+ALL_CLASSES = ["z0", "s1"] + MID_CLASSES + BIG_CLASSES
+DEC = {"z0": "0", "s1": "1", "s255": "255", "s256": "256", "s2e64": "2^64", "s2e159": "2^159", "s2e160": "2^160",
+       "s2e160p1": "2^160+1", "s2e168": "2^168", "s2e255": "2^255", "s2e319": "2^319"}
 
 
 # ------------------------------------------------------------------------------------------------
@@ -30,12 +34,14 @@ DEC = {"z0": "0", "s1": "1", "s255": "255", "s256": "256", "s2e64": "2^64", "s2e
 def params_for(tier, seed):
     rnd = random.Random(seed)
     if tier == "quick":
-        extra = rnd.sample(["s255", "s256", "s2e64", "s2e159"], 2)
-        serials = [c for c in ALL_CLASSES if c in ("z0", "s1") or c in extra]
+        # 0, 1, one of the classic sizes and one serial longer than 20 octets
+        serials = ["z0", "s1", rnd.choice(MID_CLASSES), rnd.choice(BIG_CLASSES)]
+        serials = [c for c in ALL_CLASSES if c in serials]
         return dict(owners=["A", "B"], serials=serials, bodies=2, foreign=[rnd.choice(serials)], max_ops=4,
                     page_sizes=[0, 1, 2],
                     queries="new", n_paths=30, path_len=14, n_deliver=8, chunks=12)
-    return dict(owners=["A", "B"], serials=list(ALL_CLASSES), bodies=2, foreign=[rnd.choice(ALL_CLASSES)], max_ops=5,
+    serials = ["z0", "s1", "s256", "s2e64", "s2e159", rnd.choice(BIG_CLASSES)]
+    return dict(owners=["A", "B"], serials=serials, bodies=2, foreign=[rnd.choice(serials)], max_ops=5,
                 page_sizes=[0, 1, 2, 3],
                 queries="new", n_paths=100, path_len=28, n_deliver=40, chunks=16)
 
@@ -414,11 +420,18 @@ def validate_all(lines, p, keys_mod, sdir, name, nchunks):
 def second_config(seed):
     """Thorough only: three owners (C sorts before A and B: 00..01) over three serial classes."""
     rnd = random.Random(seed * 31 + 5)
-    extra = rnd.choice(["s255", "s256", "s2e64", "s2e159"])
+    extra = rnd.choice(MID_CLASSES + BIG_CLASSES)
     serials = [c for c in ALL_CLASSES if c in ("z0", "s1", extra)]
     return dict(owners=["A", "B", "C"], serials=serials, bodies=2, foreign=[rnd.choice(serials)], max_ops=4,
                 page_sizes=[0, 1, 2],
                 queries="new", n_paths=40, path_len=24, n_deliver=0, chunks=8)
+
+
+def third_config(seed):
+    """Thorough only: every serial class beyond 20 octets next to 1 and 255, short histories."""
+    serials = ["s1", "s255"] + BIG_CLASSES
+    return dict(owners=["A", "B"], serials=serials, bodies=2, foreign=["s2e160"], max_ops=3, page_sizes=[0, 1, 2],
+                queries="new", n_paths=40, path_len=24, n_deliver=10, chunks=8)
 
 
 def explore(p, seed, vh, sdir, tag):
@@ -560,6 +573,7 @@ def run(pid, tier, seed, replay):
     configs = [("main", params_for(tier, seed))]
     if tier == "thorough":
         configs.append(("owners3", second_config(seed)))
+        configs.append(("bigserials", third_config(seed)))
     violations, allparts = [], []
     for tag, p in configs:
         v, parts = explore(p, seed, vh, sdir, tag)
